@@ -71,7 +71,9 @@ namespace detail
 			if(Value == 0)
 				return -1;
 
-			return glm::bitCount(~Value & (Value - static_cast<genIUType>(1)));
+			typedef typename detail::make_unsigned<genIUType>::type U;
+			U const v = static_cast<U>(Value);
+			return glm::bitCount(static_cast<U>(~v & (v - static_cast<U>(1))));
 		}
 	};
 
